@@ -108,7 +108,7 @@ var badReturnPrograms = []prog{
 	mkProg("undeclared-cb", "S:1:R,1,2:2:0:0:0 C:2:R,1,7:3"),
 	mkProg("zero-cb", "S:1:R,1,2:2:0:0:0 C:2:R,1,0:3"),
 	mkProg("undeclared-timeout", "S:1:R,1,2:2:0:0:0 T:2:10:R,1,8:3:0"),
-	mkProg("selfloop", "S:1:R,1,1:1,2:0:0:0"),
+	mkProg("selfloop", "S:1:R,1,2:2:0:0:0 S:2:B,R,1,2,R,1,3:2,3:0:0:0"),
 	mkProg("terminal-return", "S:1:R,1,3:2,3:0:0:0 S:2:R,1,3:3:0:0:0"),
 	mkProg("moderr", "S:1:E,1,11:2:0:0:0"),
 	mkProg("modskip", "S:1:R,1,0:2:0:0:0 C:1:R,1,2:2 S:2:R,0,3:3:0:0:0"),
@@ -467,6 +467,25 @@ func genTimeouts(p *params, emit func(string, bool)) {
 				ops = append(ops, adv(d))
 				ops = append(ops, pr.rounds(3)...)
 				ops = append(ops, adv(300))
+				ops = append(ops, pr.rounds(3)...)
+				emit(scenario(pr, ops), true)
+			}
+		}
+		// a second run of the same foreign ID reaches the timeout status while the first run's timer is still stored:
+		// only the first timer is due when the poller runs
+		for _, end := range []string{"ct:1:2", "ct:1:0", ""} {
+			for _, d2 := range []int{60, 40, 200} {
+				ops := []string{"tr:1:0:4"}
+				ops = append(ops, pr.rounds(4)...)
+				ops = append(ops, adv(50))
+				if end != "" {
+					ops = append(ops, end)
+				}
+				ops = append(ops, "tr:1:0:8", "tr:2:0:5")
+				ops = append(ops, pr.rounds(4)...)
+				ops = append(ops, adv(d2))
+				ops = append(ops, pr.rounds(3)...)
+				ops = append(ops, adv(100))
 				ops = append(ops, pr.rounds(3)...)
 				emit(scenario(pr, ops), true)
 			}
